@@ -221,9 +221,15 @@ def judge_direct(p, q, data, lang, leg, control=False, mutations=("erase", "over
                 d = first_text_diff(tp_[L][1], tq[L][1]) if tp_[L][0] == tq[L][0] == "text" else [tp_[L][0], tq[L][0],
                                                                                                  tp_[L][1][:80], tq[L][1][:80]]
                 diffs.append({"leg": "translate:" + L, "detail": d})
-        ep, eq = export_ast.export_program(p), export_ast.export_program(q)
+        def guarded(fn, x):
+            try:
+                return ("ok", fn(x))
+            except Exception as e:  # noqa: BLE001
+                return ("raises", type(e).__name__ + ": " + str(e)[:120])
+        ep, eq = guarded(export_ast.export_program, p), guarded(export_ast.export_program, q)
         if ep != eq:
-            diffs.append({"leg": "export", "detail": first_json_diff(ep, eq)})
+            diffs.append({"leg": "export", "detail": first_json_diff(ep[1], eq[1]) if ep[0] == eq[0] == "ok"
+                          else [ep[0], str(ep[1])[:160], eq[0], str(eq[1])[:160]]})
         fd, path = tempfile.mkstemp(suffix=".bin", dir=_tmpdir())
         os.close(fd)
         try:
@@ -237,7 +243,10 @@ def judge_direct(p, q, data, lang, leg, control=False, mutations=("erase", "over
             k = next((i for i, (x, y) in enumerate(zip(o1, o2)) if x != y), min(len(o1), len(o2)))
             diffs.append({"leg": "redump", "detail": {"bytes": [len(data), len(data2)], "opcodes_equal": o1 == o2,
                                                       "first_op_diff": k, "p": o1[k:k + 3], "q": o2[k:k + 3]}})
-        lk = lookups(p, q)
+        try:
+            lk = lookups(p, q)
+        except Exception as e:  # noqa: BLE001
+            lk = ["look-ups raise %s: %s" % (type(e).__name__, str(e)[:120])]
         if lk:
             diffs.append({"leg": "lookups", "detail": lk[:6]})
         for which in mutations:
